@@ -11,11 +11,16 @@
   limit on the length field and is violated by the real encoder for a slider without a length whose computed curve is
   longer than 131072 (the line it writes is rejected); **F17** — outside `RepPath` (a repeated point at a segment start
   does not make the line rejected, it changes the control points read back: C02).
+  * `hitobjects_block_accepted`: for a map all of whose objects are representable (`SliderRt.RepObject`), the whole
+    `[HitObjects]` block is its header followed by one LF-terminated record line per object (`RtFile.ListBlockShape`, the
+    shape `record_blocks_accepted_and_recovered` assumes), and `parse_hit_objects` accepts every line when the block is
+    run from any decoder state.
   Still only a statement: that every object of a *decoded* map is representable (outside the findings), timing-point
   lines, and hence `list_block_lines_accepted_statement` of Props/C04.lean.
 -/
 import RosuModel.Props.C04
 import RosuModel.Lemmas.SliderEx
+import RosuModel.Lemmas.HitObjectBlock
 set_option linter.unusedSectionVars false
 namespace Rosu.C04
 open Rosu Encode EncodeLines C11
@@ -62,6 +67,21 @@ theorem hitobject_lines_accepted (LF : CodecLaws F RF) (LP : CodecLaws P RP) (LC
         parseHitObjectLine mode st (trimEnd l) = (RtObjects.pushed st 128 h.startTime (.hold k) (RtObjects.decodedSamples h.samples mode), true)) := by
   obtain ⟨hc, hsp, hho⟩ := hitobject_lines_accepted_partial LF LP mode h st
   exact ⟨hc, fun s dist hk hr => slider_line_accepted LF LP LC mode h s dist hk hr st, hsp, hho⟩
+
+/-- **hitobjects_block_accepted** — the `[HitObjects]` block as a whole, for a map whose objects are all representable:
+`encode_hit_objects` succeeds, the block is `[HitObjects]` followed by one LF-free record line per object (so it has
+the shape `ListBlockShape` that `record_blocks_accepted_and_recovered` assumes of it), and running `parse_hit_objects`
+over the end-trimmed lines from any decoder state accepts every one of them. -/
+theorem hitobjects_block_accepted (LF : CodecLaws F RF) (LP : CodecLaws P RP) (LC : SliderRt.CoordLaws F P RP) (m : Beatmap F P)
+    (hm : ∀ h ∈ m.hitObjects, SliderRt.RepObject RF RP m.general.mode h) :
+    ∃ H : List Str, encodeHitObjects m = .ok (unlines (str "[HitObjects]" :: H)) ∧ RtFile.ListBlockShape H ∧
+      H.length = m.hitObjects.length ∧
+      ∀ st : HOCore F P, Accepts (parseHitObjectLine m.general.mode) st (H.map trimEnd) := by
+  obtain ⟨H, h1, h2, h3, h4⟩ := SliderRt.block_lines LF LP LC m.general.mode m.hitObjects hm
+  refine ⟨H, ?_, h3, h2, fun st => (h4 st).1⟩
+  unfold encodeHitObjects
+  simp only [h1, bind, Except.bind, pure, Except.pure, unlines_cons]
+  rfl
 
 /-- an accepted slider line leaves the decoder's path buffer `curve_points` empty, whatever it held before: the next
 slider line starts from a clean buffer. -/
